@@ -32,12 +32,12 @@ enum { T_INT, T_BSTR, T_TSTR, T_IBS, T_DARR, T_IARR, T_DMAP, T_IMAP, T_TAG, T_IT
 static const char* TNAME[] = {"int", "bstr", "tstr", "ibs", "darr", "iarr", "dmap", "imap", "tag", "its"};
 enum {
   O_MK = 1, O_DECREF, O_IDECREF, O_INCREF, O_SER, O_COPY, O_LOADBACK, O_GET, O_GET_OOB, O_TAG_ITEM, O_BUILD_TAG, O_PUSH, O_MOVE_PUSH, O_PUSH_FULL,
-  O_SET, O_SET_OOB, O_REPLACE, O_REPLACE_OOB, O_ADD_CHUNK, O_TAG_SET, O_TAG_SET_OCC, O_MAP_ADD, O_MAP_ADD_FULL, O_MOVE_MAP_ADD, O_LOAD_REJ, O_NOPS
+  O_SET, O_SET_OOB, O_REPLACE, O_REPLACE_OOB, O_ADD_CHUNK, O_TAG_SET, O_TAG_SET_OCC, O_MAP_ADD, O_MAP_ADD_FULL, O_MOVE_MAP_ADD, O_LOAD_REJ, O_DESCRIBE, O_NOPS
 };
 static const char* ONAME[] = {"", "mk", "decref", "intermediate_decref", "incref", "serialize", "copy", "load(serialize)", "array_get", "array_get(out of range)",
                               "tag_item", "build_tag", "array_push", "array_push(cbor_move(x))", "array_push(full)", "array_set", "array_set(out of range)",
                               "array_replace", "array_replace(out of range)", "string/bytestring_add_chunk", "tag_set_item", "tag_set_item(occupied)", "map_add",
-                              "map_add(full)", "map_add(cbor_move(k), v)", "load(rejected variants of serialize)"};
+                              "map_add(full)", "map_add(cbor_move(k), v)", "load(rejected variants of serialize)", "describe"};
 typedef struct { uint8_t op, a, b, c; } op_t; /* meaning of a,b,c depends on op */
 typedef struct { uint8_t n; op_t h[MAXH]; uint8_t pad[3]; } hist_t;
 
@@ -147,7 +147,7 @@ static cbor_item_t* mk_real(int kind) {
   switch (kind) {
     case T_INT: return cbor_build_uint8(7);
     case T_BSTR: return cbor_build_bytestring((cbor_data) "ab", 2);
-    case T_TSTR: return cbor_build_string("hi");
+    case T_TSTR: return cbor_build_string(""); /* the text kind is the EMPTY string (and so are the chunks of T_ITS); the byte kind is non-empty */
     case T_IBS: return cbor_new_indefinite_bytestring();
     case T_DARR: return cbor_new_definite_array(2);
     case T_IARR: return cbor_new_indefinite_array();
@@ -206,6 +206,7 @@ static int enum_ops(const shadow* s, op_t* out) {
     out[n++] = (op_t){O_IDECREF, (uint8_t)a, 0, 0};
     if (complete(s, ia)) out[n++] = (op_t){O_SER, (uint8_t)a, 0, 0};
     if (complete(s, ia) && a == lowest_slot_of(s, ia)) out[n++] = (op_t){O_LOAD_REJ, (uint8_t)a, 0, 0};
+    if (complete(s, ia) && a == lowest_slot_of(s, ia)) out[n++] = (op_t){O_DESCRIBE, (uint8_t)a, 0, 0};
     if (e >= 0) {
       out[n++] = (op_t){O_INCREF, (uint8_t)a, (uint8_t)e, 0};
       if (complete(s, ia) && nl + tsize(s, ia) <= (int)MAXI) {
@@ -279,6 +280,12 @@ static void apply(shadow* s, op_t o) {
       if (w != sz || sz == 0) FAIL("serialize wrote %zu, size %zu", w, sz);
       break;
     }
+    case O_DESCRIBE: { /* the pretty printer hands out no reference and takes none: the oracle after this transition sees any count it touched */
+      static FILE* nullf;
+      if (!nullf) nullf = fopen("/dev/null", "w");
+      cbor_describe(real[ia], nullf);
+      break;
+    }
     case O_LOAD_REJ: {
       /* failed decodes hand out no reference: whatever the decoder built on the way must be gone when it returns (the state is unchanged, so the
        * audit after this transition sees any block left behind). Variants of the item's own encoding e: every proper prefix; e inside an
@@ -291,7 +298,7 @@ static void apply(shadow* s, op_t o) {
       uint64_t live0 = va.live;
       for (size_t cut = 0; cut < w; cut++) {
         cbor_item_t* p = cbor_load(e, cut, &res);
-        vf_cnt(VC_USER + 27, 1);
+        vf_cnt(VC_USER + 28, 1);
         if (p) { FAIL("load of a proper prefix (%zu of %zu bytes) of the serialization returned an item", cut, w); cbor_decref(&p); }
       }
       static const struct { unsigned char pre[2]; unsigned npre; unsigned char post[2]; unsigned npost; } W[] = {
@@ -303,7 +310,7 @@ static void apply(shadow* s, op_t o) {
         memcpy(v + n, e, w); n += w;
         memcpy(v + n, W[i].post, W[i].npost); n += W[i].npost;
         cbor_item_t* p = cbor_load(v, n, &res);
-        vf_cnt(VC_USER + 27, 1);
+        vf_cnt(VC_USER + 28, 1);
         if (p) cbor_decref(&p); /* a few of these are acceptable for some items (a definite string inside a chunked string of its kind): then it is a plain load + release */
         if (va.live != live0) { FAIL("a rejected (or loaded and released) variant %u of the serialization left %" PRId64 " blocks allocated", i, (int64_t)(va.live - live0)); break; }
       }
@@ -897,7 +904,7 @@ struct vf_check vf_the_check = {
 #endif
     .level = "model_checking",
     .rule = "level-synchronous BFS over all histories of public-API calls of a rule-following client with 3 reference slots: create {int, definite byte/text string, indefinite "
-            "byte / text string, definite array(2), indefinite array, definite map(1), indefinite map, tag}, decref, intermediate_decref, incref, serialize, copy, load(serialize), load of rejected variants of the serialization (every proper prefix and 9 malformed wrappings; no reference is handed out, nothing may stay allocated), "
+            "byte / text string, definite array(2), indefinite array, definite map(1), indefinite map, tag}, decref, intermediate_decref, incref, serialize, describe, copy, load(serialize), load of rejected variants of the serialization (every proper prefix and 9 malformed wrappings; no reference is handed out, nothing may stay allocated), "
             "array get (in and out of range), push / push(cbor_move) / push on full, set / replace (in and out of range), add_chunk, tag_set_item (empty and occupied), tag_item, "
             "build_tag, map_add / map_add(cbor_move key) / map_add on full; containers stay acyclic. States are deduplicated by the canonical form of the shadow ownership graph "
             "(kinds, capacities, ordered edges, client references; minimised over slot permutations); every transition replays its history on fresh objects and executes the real call. "
@@ -915,7 +922,7 @@ struct vf_check vf_the_check = {
                  [VC_USER + O_MOVE_PUSH] = "op_push_moved", [VC_USER + O_PUSH_FULL] = "op_push_on_full", [VC_USER + O_SET] = "op_set", [VC_USER + O_SET_OOB] = "op_set_out_of_range",
                  [VC_USER + O_REPLACE] = "op_replace", [VC_USER + O_REPLACE_OOB] = "op_replace_out_of_range", [VC_USER + O_ADD_CHUNK] = "op_add_chunk", [VC_USER + O_TAG_SET] = "op_tag_set_item",
                  [VC_USER + O_TAG_SET_OCC] = "op_tag_set_item_occupied", [VC_USER + O_MAP_ADD] = "op_map_add", [VC_USER + O_MAP_ADD_FULL] = "op_map_add_on_full",
-                 [VC_USER + O_MOVE_MAP_ADD] = "op_map_add_moved_key", [VC_USER + O_LOAD_REJ] = "op_load_of_rejected_variants", [VC_USER + 27] = "rejected_or_wrapped_loads_executed",
+                 [VC_USER + O_MOVE_MAP_ADD] = "op_map_add_moved_key", [VC_USER + O_LOAD_REJ] = "op_load_of_rejected_variants", [VC_USER + O_DESCRIBE] = "op_describe", [VC_USER + 28] = "rejected_or_wrapped_loads_executed",
 #if PROP == 13
                  [K13_PIPE] = "decode_describe_serialize_copy_release_pipelines", [K13_NOALLOC_TREES] = "trees_sized_and_serialized_with_zero_requests",
                  [K13_NOALLOC_CALLS] = "calls_checked_for_zero_allocator_traffic", [K13_BLOCKS_IN_ARENA] = "block_addresses_checked_inside_arena", [K13_FAULT_RUNS] = "load_copy_release_runs_with_one_request_refused",
